@@ -56,6 +56,9 @@ def gen_requests(rng, tier):
             runs, gens = 1, 2
         reqs.append("dss %d %d %d %d %d %d %d" % (n, gap, initial_va, runs, gens,
                                                   rng.below(1 << 31), rng.next()))
+    # ---- dataframe::clone_schema on its own: metadata only --------------------------------------
+    for k in range(24 if tier == "quick" else 600):
+        reqs.append("schema %d %d %d" % (rng.between(0, 13), rng.choice([0, 0, 1, 3]), rng.next()))
     return reqs
 
 
